@@ -182,7 +182,9 @@ func race(file string, timeoutS, seed int, which []SolverSpec) (solveResult, []s
 			go func(sp SolverSpec) {
 				r := runOne(ctx, sp, lite, timeoutS, seed)
 				r.solver += "(lite)"
-				if r.status != "unsat" {
+				if r.status == "sat" {
+					r.status = "lite-sat" // a model of the weakened query: only a candidate, to be replayed
+				} else if r.status != "unsat" {
 					r.status = "unknown"
 				}
 				ch <- r
@@ -271,8 +273,13 @@ func discharge(reps []*FuncReport, cfg solveCfg) {
 					if j.o.Expect == "sat" && to > 2 {
 						to = 2 // cover queries are auxiliary: inconclusive after 2 s is not a failure
 					}
-					r, _ := race(f, to, cfg.seed, solvers)
+					r, all := race(f, to, cfg.seed, solvers)
 					j.o.Status, j.o.Solver, j.o.TimeMs, j.o.Model = r.status, r.solver, r.ms, r.out
+					for _, a := range all {
+						if a.status == "lite-sat" {
+							j.o.LiteSat = true
+						}
+					}
 				}
 				j.o.File = f
 			}
